@@ -131,9 +131,16 @@ def deep():
         {"id": 9, "parent": 8, "work": 2, "kind": "badtime"},   # ... 5th header not after the median time
         {"id": 10, "parent": 8, "work": 1},          # valid alternative: 5..8,10 heavier than 2,3,4
         {"id": 11, "parent": 4, "work": 1},
+        # a second fork whose last header is dated BEFORE its parent but after the median time of its
+        # own ancestors (valid); judged against the old chain's timestamps it would look too old
+        {"id": 12, "parent": 1, "work": 2, "gap": 10},
+        {"id": 13, "parent": 12, "work": 2, "gap": 10},
+        {"id": 14, "parent": 13, "work": 2, "gap": 10},
+        {"id": 15, "parent": 14, "work": 2, "gap": -11},
     ]
     B = [[5, 6, 7, 8, 9], [5, 6, 7, 8, 10], [5, 6, 7, 8], [5, 6, 7], [9], [10], [2, 3, 4], [11], [4, 11],
-         [1, 5, 6, 7, 8, 9], [1, 5, 6, 7, 8, 10], [5], [6, 7, 8, 9]]
+         [1, 5, 6, 7, 8, 9], [1, 5, 6, 7, 8, 10], [5], [6, 7, 8, 9],
+         [12, 13, 14, 15], [1, 12, 13, 14, 15], [12, 13, 14], [15]]
     return _mk(H, {}, 2, [0, 7], [4], 2, 6, batches=B, init_chains=[(0, 1), (0, 1, 2, 3, 4), (0, 1, 2, 3)])
 
 
